@@ -59,6 +59,8 @@ def ark_ec_models():
         (r'^ark_ec::twisted_edwards::Projective::<.*>::new$', m_te_projective_new),
         (r'^ark_ec::twisted_edwards::Projective::<.*>::new_unchecked$', m_te_projective_new_unchecked),
         (r'^ark_ec::twisted_edwards::Affine::<.*>::new_unchecked$', m_te_affine_new_unchecked),
+        # trait-default conversions of the crate's own wrapper types: AffineRepr::into_group is `self.into()`
+        (r'^<ark_curve::element::affine::AffinePoint as ark_ec::AffineRepr>::into_group$', lambda I, fr, fn, a: I.call_item(mirsym.find_item_hdr(I.items, r'^ark_curve::element::.*::from$', r'From<AffinePoint> for Element'), [a[0]])),
         (r'^ark_ec::twisted_edwards::Affine::<.*>::is_zero$', lambda I, fr, fn, a: (lambda p: models.fe_is_zero(I, p.fields[0]) and models.fe_eq(I, p.fields[1], FE.const('Fq', 1)))(models.D(I, a[0]) if not isinstance(models.D(I, a[0]), Ref) else I.deref(models.D(I, a[0])))),
         (r'^ark_ec::twisted_edwards::Affine::<.*>::zero$', lambda I, fr, fn, a: Agg('Affine', [FE.const('Fq', 0), FE.const('Fq', 1)])),
         (rf'^<{PA} as ark_ec::AffineRepr>::zero$', lambda I, fr, fn, a: Agg('Affine', [FE.const('Fq', 0), FE.const('Fq', 1)])),
